@@ -558,6 +558,96 @@ def r9(ctx, prog):
         raise AnalysisBroken('expected >= 1 leaf action with an event of its own (3 obligations), found %d obligations' % n)
 
 
+def r10(ctx, prog):
+    ctx.rule('C17.R10', 'A10 child index ranges by folding: where a composite reads children_.at(i) / table[i] behind a comparison of i with the container\'s size, the guards in '
+             'force — folded over a grid of (i, size) — admit only i < size, so the composite finishes after its last child instead of indexing one past it; loops that '
+             'start or visit every child run exactly size times from 0', floor=4)
+    n = 0
+    for f in prog.funcs.values():
+        if not f.file.startswith(MODULES + '/flow/') or f.file.endswith('_test.cpp'):
+            continue
+        for c in f.calls():
+            if not (c.get('fn') in ('at', 'operator[]') and c.get('obj') is not None and c.get('args')):
+                continue
+            cont = f.field_of(c['obj'])
+            if not cont or not ('std::vector' in (c.get('cls') or '') or 'std::deque' in (c.get('cls') or '') or 'std::array' in (c.get('cls') or '')):
+                continue
+            ix = f.s(f.strip_casts(c['args'][0]))
+            if ix is None or ix['k'] not in ('DeclRefExpr', 'MemberExpr') or ix.get('cv') is not None:
+                continue
+            iname = ix.get('n')
+            is_i = lambda sx, iname=iname: sx['k'] in ('DeclRefExpr', 'MemberExpr') and sx.get('n') == iname
+            is_sz = lambda sx, cont=cont: sx['k'] in q.CALL_KINDS and sx.get('fn') == 'size' and sx.get('obj') is not None and f.field_of(sx['obj']) == cont
+            conds = [(cd, k) for cd, k, b in f.cfg.controlling_branches(q.pt(f, c)) if any(is_i(f.stmts[x]) for x in f.walk(cd)) and any(is_sz(f.stmts[x]) for x in f.walk(cd))]
+            if not conds:
+                continue
+            n += 1
+            bad = None
+            for size in range(0, 4):
+                for i in range(0, 5):
+                    holds = True
+                    for cd, k in conds:
+                        v = q.eval_expr(f, cd, lambda sx, i=i, size=size: i if is_i(sx) else (size if is_sz(sx) else None))
+                        if v is None:
+                            holds = None
+                            break
+                        if bool(v) != (k == 0):
+                            holds = False
+                            break
+                    if holds and i >= size and bad is None:
+                        bad = (i, size)
+            ctx.ob('C17.R10', '%s|%s[%s]@%s' % (locks.site_name(prog, f), cont.split('::')[-1], iname, f.loc(c['i']).split(':')[-1]), bad is None,
+                   'the guards admit only %s < size' % iname if bad is None else
+                   'the guards in front of %s.at(%s) let %s == %d through with %d element(s): after the last child the composite indexes one past the end (at() throws) instead '
+                   'of finishing' % (cont.split('::')[-1], iname, iname, bad[0], bad[1]), where=f.loc(c['i']))
+        # loops over all children
+        for lp in [st for st in f.stmts if st and st['k'] == 'ForStmt' and st.get('cond') is not None]:
+            szs = [f.stmts[x] for x in f.walk(lp['cond']) if f.stmts[x]['k'] in q.CALL_KINDS and f.stmts[x].get('fn') == 'size' and f.stmts[x].get('obj') is not None and f.field_of(f.stmts[x]['obj'])]
+            if not szs:
+                continue
+            cont = f.field_of(szs[0]['obj'])
+            tr = q.loop_trips(f, lp, lambda sx, cont=cont: sx['k'] in q.CALL_KINDS and sx.get('fn') == 'size' and sx.get('obj') is not None and f.field_of(sx['obj']) == cont)
+            if tr is None:
+                continue
+            n += 1
+            okw = all(tr[N] == (N, 0) for N in tr)
+            wit = next(((N, tr[N]) for N in tr if tr[N] != (N, 0)), None)
+            ctx.ob('C17.R10', '%s|for-each-%s@%s' % (locks.site_name(prog, f), cont.split('::')[-1], f.loc(lp['i']).split(':')[-1]), okw, 'visits elements 0..size-1, each once' if okw else
+                   'the loop over %s does not visit exactly 0..size-1 (for %d element(s) it runs %d time(s) from index %d): a child is never started, or one past the end is touched'
+                   % (cont.split('::')[-1], wit[0], wit[1][0], wit[1][1]), where=f.loc(lp['i']))
+    # RepeatAction: the count-down replayed — with repeat_times_ == t the child is started exactly t times
+    RP = 'tbox::flow::RepeatAction'
+    st_ = method(prog, RP, 'onStart', True)
+    fin = method(prog, RP, 'onChildFinished', True)
+    ini = [(a, rhs) for a, rhs in q.assigns(st_, 'RepeatAction::remain_times_')]
+    dec = [x for x in fin.stmts if x and x['k'] == 'UnaryOperator' and x.get('op') == '--' and (fin.field_of(x['ch'][0]) or '').endswith('::remain_times_')]
+    if len(ini) != 1 or len(dec) != 1:
+        raise AnalysisBroken('RepeatAction: remain_times_ initialisation / count-down not found (%d/%d)' % (len(ini), len(dec)))
+    rem = lambda sx: sx['k'] == 'MemberExpr' and sx.get('n') == 'remain_times_'
+    conds = [(c, k) for c, k, b in fin.cfg.controlling_branches(q.pt_or_term(fin, dec[0])) if any(rem(fin.stmts[x]) for x in fin.walk(c))]
+    res = {}
+    for t in range(1, 5):
+        r = q.eval_expr(st_, ini[0][1], lambda sx, t=t: t if (sx['k'] == 'MemberExpr' and sx.get('n') == 'repeat_times_') else None)
+        starts = 1
+        while r is not None and starts < 12:
+            again = all((bool(q.eval_expr(fin, c, lambda sx, r=r: r if rem(sx) else None)) == (k == 0)) for c, k in conds) if conds else False
+            if not again:
+                break
+            starts += 1
+            r -= 1
+            if r < 0:
+                starts = 99
+                break
+        res[t] = starts if r is not None else None
+    okr = all(res[t] == t for t in res)
+    n += 1
+    ctx.ob('C17.R10', 'RepeatAction|count-down', okr, 'a RepeatAction of t times starts its child exactly t times (t = 1..4 replayed)' if okr else
+           'replaying remain_times_ gives child starts %s for repeat_times_ 1..4 (99 = the counter wraps below zero): the documented number of repetitions is off by one' % res,
+           where=fin.loc(dec[0]['i']))
+    if n < 4:
+        raise AnalysisBroken('expected >= 4 guarded child look-ups / child loops in the flow module, found %d' % n)
+
+
 def run(ctx):
     prog = extract('ALL' if ctx.tier == 'thorough' else scope_units())
     ctx.guard(r1, ctx, prog)
@@ -569,4 +659,5 @@ def run(ctx):
     ctx.guard(r7, ctx, prog)
     ctx.guard(r8, ctx, prog)
     ctx.guard(r9, ctx, prog)
+    ctx.guard(r10, ctx, prog)
     return prog
